@@ -21,8 +21,9 @@ TAG_CANDIDATES = [("Run Time", "s"), ("FT01", "L/h"), ("Reset", None)]
 CMD_CANDIDATES = ["Reset", "Wait", "Stop"]
 # names put into the name slot of a tag-referencing line: the candidates (defined or not, by the bits), close
 # misspellings of candidates, an unrelated long name, a short name
-TAG_NAMES = ["Run Time", "FT01", "Reset", "Run Tim", "FT02", "Zebra Quux", "XY"]
-CMD_NAMES = ["Reset", "Wait", "Stop", "Rest", "Waitt", "Zebra Quux", "XY"]
+VERY_LONG = "This line is a free text note that somebody forgot to mark as a comment"   # far longer than any defined name
+TAG_NAMES = ["Run Time", "FT01", "Reset", "Run Tim", "FT02", "Zebra Quux", "XY", VERY_LONG, "Q"]
+CMD_NAMES = ["Reset", "Wait", "Stop", "Rest", "Waitt", "Zebra Quux", "XY", VERY_LONG, "Q"]
 
 # (template id, text with {n}, kind, always_error)   kind: "tag" (references tag {n}) | "cmd" ({n} is a command name) | None
 # always_error: the line is an incomplete condition / assignment whatever the sets are
@@ -200,7 +201,7 @@ OBLIGATIONS = [Obligation(
              "openpectus.lsp.lsp_analysis:build_tags", "openpectus.lsp.lsp_analysis:build_commands", "openpectus.lsp.lsp_analysis:lint",
              "openpectus.lsp.lsp_analysis:analyze"],
     symbolic="line selectors over a catalogue of 26 templates x name slot (7 tag names / 7 command names: defined candidates, close misspellings, "
-             "unrelated long name, two character name); membership bits: which of 3 candidate tags and 3 candidate commands are defined",
+             "unrelated long name, a 70-character free-text name, two- and one-character names); membership bits: which of 3 candidate tags and 3 candidate commands are defined",
     bounds={"quick": "method = 'Mark: A' + 1 catalogue line; all 8 tag sets / 8 command sets (incl. empty)",
             "thorough": "method = 'Mark: A' + 1 catalogue line + 1 line of a 12 line sub-catalogue (tag / command / incomplete / neutral lines); all 8 x 8 sets"},
     assumptions=["all solver variables are discrete (selectors, membership bits): the solver enumerates and prunes, every path is one concrete configuration",
